@@ -667,6 +667,23 @@ def opChunks (j : Json) : Except String Json := do
   let c ← nat? (← field j "c")
   return Json.mkObj [("model", Json.mkObj [("ok", ofTrajs (TextIO.chunks l c))]), ("holds", Json.bool true)]
 
+/-- C19: the dynamical-coring command as file plumbing: read the state file, split by limits, core each piece iteratively,
+write one value per line.  Returns the expected DATA values (header lines are not compared). -/
+def opCliCoring (j : Json) : Except String Json := do
+  let lines ← strs? (← field j "lines")
+  let limits ← optNats? j "limits"
+  let τ ← nat? (← field j "tau")
+  match TextIO.readTable (lines.map String.toList) with
+  | none => return Json.mkObj [("model", Json.mkObj [("err", "ParseError")]), ("holds", Json.bool true)]
+  | some tbl =>
+    let col := tbl.map (fun r => r.getD 0 0)
+    match TextIO.splitLimits (limits.getD [col.length]) col with
+    | none => return Json.mkObj [("model", Json.mkObj [("err", "ValueError")]), ("holds", Json.bool true)]
+    | some pieces =>
+      match Coring.refSet pieces (τ : Int) true with
+      | .error e => return Json.mkObj [("model", Json.mkObj [("err", Json.str e.name)]), ("holds", Json.bool true)]
+      | .ok cored => return Json.mkObj [("model", Json.mkObj [("ok", ofInts cored.flatten)]), ("holds", Json.bool true)]
+
 def dispatch (j : Json) : Except String Json := do
   let op ← str? (← field j "op")
   match op with
@@ -697,6 +714,7 @@ def dispatch (j : Json) : Except String Json := do
   | "io_write" => opIoWrite j
   | "io_read" => opIoRead j
   | "chunks" => opChunks j
+  | "cli_coring" => opCliCoring j
   | _ => throw s!"unknown op {op}"
 
 end MsmVerif.Driver
